@@ -1,8 +1,8 @@
 /-
 C15  Malicious-mode OT extension detects a deviating receiver.
 
-Property theorems only; models in Model/{Clmul,Kos,Iknp}.lean, helper lemmas
-in Proofs/{Clmul,Kos,Iknp}.lean.
+Property theorems only; models in Model/{Clmul,Kos,KosSet,Iknp}.lean, helper
+lemmas in Proofs/{Clmul,Kos,KosSet,Iknp}.lean.
 
 Quantification.  Every family of PRG streams (`R0 R1 SS : column → position →
 byte`, hence every AES key), every challenge generator `X : seed → index →
@@ -22,7 +22,16 @@ What is proved about "never silently accepts an inconsistent state":
   products), and when it accepts its outputs are the honest ones XOR
   `E_r & Δ`;
 * deterministic corollaries: `C15_kos_complete`, `C15_kos_unselected_harmless`,
-  `C15_kos_single_row_sound`, `C15_kos_response_sound`.
+  `C15_kos_single_row_sound`, `C15_kos_response_sound`;
+* alterations as SETS of positions (any number of flips, response intact):
+  `C15_kos_set_accept_iff` — accepted iff the XOR of `χ_r·X^i` over the altered
+  positions `(r, i)` selected by `Δ` vanishes; `C15_kos_pair_accept_iff` — two
+  flips in one selected column at rows `r ≠ r'` are accepted iff `χ_r = χ_r'`;
+  `C15_kos_distinct_sound` — if the coefficients of the session are non-zero
+  and pairwise distinct (`distinctNZ`, evaluated by the driver for the
+  coefficients of every session and compared with the coefficients RECOVERED
+  from the real receiver's behaviour, `C15_kos_probe_recovers_chi`) no one- or
+  two-position alteration of a selected column is accepted.
 
 FULL STATEMENT, NOT PROVED (and false as a deterministic statement):
 
@@ -33,8 +42,14 @@ FULL STATEMENT, NOT PROVED (and false as a deterministic statement):
    `E_r & Δ ≠ 0`, acceptance means `Σ_r χ_r·(E_r & Δ) = 0`, a non-trivial
    GF(2)[X]-linear relation among the PRG outputs `χ_r`; that this has
    probability about 2⁻¹²⁸ over the seed is a cryptographic statement about
-   AES-CTR outside Lean.  The deterministic part is `C15_kos_single_row_sound`
-   (all effective alterations in one row).
+   AES-CTR outside Lean.  The deterministic parts are `C15_kos_single_row_sound`
+   (all effective alterations in one row) and `C15_kos_distinct_sound` (two
+   positions of one column, coefficients pairwise distinct).  For alterations
+   chosen WITH knowledge of `seed2` (it is on the wire, and the receiver picks
+   it itself) the statement is false: the `n + 256 > 128` coefficients are
+   128-bit vectors, so some set `S` of at most 129 rows has `XOR_{r∈S} χ_r = 0`
+   (Gaussian elimination), and flipping one column at the rows of `S` is
+   accepted whatever `Δ` is: `C15_kos_dependent_rows_forgery_witness`.
 2. For alterations of the matrix TOGETHER with the response the statement is
    false: `C15_kos_adaptive_forgery_witness` — whoever sees `seed2` on the wire and
    guesses `E_r & Δ` (one bit of `Δ` for a single flip: probability 1/2) can
@@ -43,6 +58,7 @@ FULL STATEMENT, NOT PROVED (and false as a deterministic statement):
 -/
 import MpcVerif.Proofs.Clmul
 import MpcVerif.Proofs.Kos
+import MpcVerif.Proofs.KosSet
 
 namespace Mpc
 open Mpc.Iknp Mpc.Clmul Mpc.Kos
@@ -421,5 +437,285 @@ theorem C15_kos_adaptive_forgery_witness (X : Label → Nat → Label) (R0 R1 SS
 with `Delta.Bit(0) = 1`. -/
 example : (0 : Nat) < (#[true] : Array Bool).size ∧ errRow 1 flip00 [] 0 &&& (1#128 <<< 64) ≠ 0#128 :=
   ⟨by decide, by decide +kernel⟩
+
+
+/-! ## Alterations as sets of positions; the coefficient vector -/
+
+/-- `kos_set_accept_iff`: the acceptance condition for a SET of altered matrix
+positions.  The transmitted matrix is altered by error masks whose rows are
+exactly the flips of the position list `ps` (global rows: payload `0..n-1`,
+check batch `n..n+255`; any number of positions, any columns `< 128`), the
+response is intact.  Then `Send(n, true)` succeeds iff
+
+    XOR over the (r, i) ∈ ps with r < n + 256 and Delta.Bit(i) = 1 of  χ_r · X^i  =  0
+
+(`posSum`, unreduced products), and then its outputs are the honest ones XOR
+the selected altered bits of each row. -/
+theorem C15_kos_set_accept_iff (X : Label → Nat → Label) (R0 R1 SS : Nat → Nat → Byte) (delta : Label)
+    (hb : BaseOK R0 R1 SS delta) (rs : RecvSt) (ss : SendSt) (hs : InStep rs ss) (b : Array Bool)
+    (b0 b1 seed2 : Label) (E1 E2 moreD : List Bytes)
+    (h1 : Shape (receive R0 R1 rs b).2.2 E1)
+    (h2 : Shape (receive R0 R1 (receive R0 R1 rs b).1 (bcvOf b0 b1)).2.2 E2)
+    (ps : List Pos) (hcol : ∀ p, p ∈ ps → p.2 < 128)
+    (hE : ∀ r, r < b.size + 256 → errRow b.size E1 E2 r = posRow ps r) :
+    ∃ ss' sent,
+      InStep (receiveKos X R0 R1 rs b b0 b1 seed2).st ss' ∧ sent.length = b.size ∧
+      (∀ i, i < b.size →
+        (receiveKos X R0 R1 rs b b0 b1 seed2).labels.getD i 0#128 =
+          sent.getD i 0#128 ^^^ (if b.getD i false then delta else 0#128) ^^^ (posRow ps i &&& delta)) ∧
+      ∀ (moreL : List Label),
+        sendKos X SS delta ss b.size
+            (xorMsgs (receive R0 R1 rs b).2.2 E1 ++
+              (xorMsgs (receive R0 R1 (receive R0 R1 rs b).1 (bcvOf b0 b1)).2.2 E2 ++ moreD))
+            ((receiveKos X R0 R1 rs b b0 b1 seed2).resp ++ moreL) =
+          if posSum (X seed2) delta (b.size + 256) ps = pzero
+          then some { st := ss', labels := sent, restData := moreD, restLabels := moreL } else none := by
+  obtain ⟨ss', sent, g1, g2, _, g4, g5⟩ := kos_run X R0 R1 SS delta hb rs ss hs b b0 b1 seed2 E1 E2 moreD h1 h2
+  refine ⟨ss', sent, g1, g2, ?_, ?_⟩
+  · intro i hi
+    rw [g4 i hi, hE i (by omega)]
+  · intro moreL
+    have hresp : (receiveKos X R0 R1 rs b b0 b1 seed2).resp ++ moreL =
+        seed2 :: (receiveKos X R0 R1 rs b b0 b1 seed2).x :: (receiveKos X R0 R1 rs b b0 b1 seed2).t0 ::
+          (receiveKos X R0 R1 rs b b0 b1 seed2).t1 :: moreL := by
+      simp [RecvOut.resp, receiveKos]
+    rw [hresp, g5, residual_intact]
+    rw [psum_congr _ _ (fun r => mul128 (X seed2 r) (posRow ps r &&& delta)) (fun r hr => by rw [hE r hr])]
+    rw [psum_posRow _ _ _ _ hcol]
+
+
+/-- Non-vacuity: `flip00` is the error matrix of the position list `[(0, 0)]`. -/
+example : ∀ q, q < 1 + 256 → errRow 1 flip00 [] q = posRow [(0, 0)] q := by
+  intro q hq
+  by_cases h0 : q = 0
+  · subst h0; decide +kernel
+  · have e : errRow 1 flip00 [] q = 0#128 := by
+      unfold errRow
+      have h1 : ¬ q < 1 := by omega
+      simp [h1, rowsOf, rowsLoop]
+    have a : (0 : Nat) ≠ q := fun e => h0 e.symm
+    rw [e]; simp [posRow, a]
+
+/-- `kos_pair_accept_iff`: two flips in the SAME column `i` selected by `Delta`
+at two rows `r`, `r'` (payload or check batch), response intact, are accepted
+IFF the two rows have the same challenge coefficient.  (With `r = r'` the two
+flips cancel.) -/
+theorem C15_kos_pair_accept_iff (X : Label → Nat → Label) (R0 R1 SS : Nat → Nat → Byte) (delta : Label)
+    (hb : BaseOK R0 R1 SS delta) (rs : RecvSt) (ss : SendSt) (hs : InStep rs ss) (b : Array Bool)
+    (b0 b1 seed2 : Label) (E1 E2 moreD : List Bytes) (moreL : List Label)
+    (h1 : Shape (receive R0 R1 rs b).2.2 E1)
+    (h2 : Shape (receive R0 R1 (receive R0 R1 rs b).1 (bcvOf b0 b1)).2.2 E2)
+    (r r' i : Nat) (hr : r < b.size + 256) (hr' : r' < b.size + 256) (hi : i < 128)
+    (hsel : labelBit delta i = true)
+    (hE : ∀ q, q < b.size + 256 → errRow b.size E1 E2 q = posRow [(r, i), (r', i)] q) :
+    (sendKos X SS delta ss b.size
+        (xorMsgs (receive R0 R1 rs b).2.2 E1 ++
+          (xorMsgs (receive R0 R1 (receive R0 R1 rs b).1 (bcvOf b0 b1)).2.2 E2 ++ moreD))
+        ((receiveKos X R0 R1 rs b b0 b1 seed2).resp ++ moreL)).isSome ↔ X seed2 r = X seed2 r' := by
+  obtain ⟨ss', sent, _, _, _, hrun⟩ := C15_kos_set_accept_iff X R0 R1 SS delta hb rs ss hs b b0 b1 seed2 E1 E2 moreD h1 h2
+    [(r, i), (r', i)] (by intro p hp; simp at hp; rcases hp with e | e <;> (subst e; exact hi)) hE
+  rw [hrun moreL]
+  have hsum : posSum (X seed2) delta (b.size + 256) [(r, i), (r', i)] =
+      mul128 (X seed2 r ^^^ X seed2 r') (bitLabel i) := by
+    simp only [posSum, List.foldr, hr, hr', hsel, and_self, if_true, zero_pxor]
+    rw [mul128_xor_left, pxor_comm]
+  rw [hsum]
+  constructor
+  · intro h
+    apply Classical.byContradiction
+    intro hne
+    have hx : X seed2 r ^^^ X seed2 r' ≠ 0#128 := fun e => hne (BitVec.xor_eq_zero_iff.mp e)
+    rw [if_neg (mul128_ne_zero _ _ hx (bitLabel_ne_zero i hi))] at h
+    cases h
+  · intro h
+    rw [h, BitVec.xor_self, mul128_zero_left]
+    simp
+
+/-- The error mask that flips column 0 at rows 0 and 1 of a two-row payload batch. -/
+def flip01 : List Bytes := [mk 128 fun k => if k = 0 then 3#8 else 0#8]
+
+/-- Non-vacuity: `flip01` has the shape of the payload chunk of a two-row call
+and is the error matrix of the positions `[(0, 0), (1, 0)]`; `Delta.Bit(0) = 1`
+for `Delta = 1 <<< 64`. -/
+example (R0 R1 : Nat → Nat → Byte) (rs : RecvSt) : Shape (receive R0 R1 rs #[true, false]).2.2 flip01 := by
+  simp [receive, recvLoop, Shape, flip01, size_recvCols_u, K, chunkRows]
+
+example : ∀ q, q < 2 + 256 → errRow 2 flip01 [] q = posRow [(0, 0), (1, 0)] q := by
+  intro q hq
+  by_cases h0 : q = 0
+  · subst h0; decide +kernel
+  · by_cases h1 : q = 1
+    · subst h1; decide +kernel
+    · have e : errRow 2 flip01 [] q = 0#128 := by
+        unfold errRow
+        have h2 : ¬ q < 2 := by omega
+        simp [h2, rowsOf, rowsLoop]
+      have e2 : posRow [(0, 0), (1, 0)] q = 0#128 := by
+        have a : (0 : Nat) ≠ q := fun e => h0 e.symm
+        have b : (1 : Nat) ≠ q := fun e => h1 e.symm
+        simp [posRow, a, b]
+      rw [e, e2]
+
+example : labelBit (1#128 <<< 64) 0 = true := by decide
+
+/-- `kos_distinct_sound`: if the challenge coefficients of the `n + 256` rows
+are non-zero and pairwise distinct (`distinctNZ`: a computable fact of the
+session's seed, printed by the driver for every session), then NO alteration
+of one position, and NO alteration of two positions of one column, in a
+column selected by `Delta` is accepted.  This is the deterministic part of
+soundness for two-row alterations; it is exactly what a challenge stream that
+repeats coefficients across rows (restarted or shifted between blocks) loses
+(`C15_kos_pair_accept_iff`). -/
+theorem C15_kos_distinct_sound (X : Label → Nat → Label) (R0 R1 SS : Nat → Nat → Byte) (delta : Label)
+    (hb : BaseOK R0 R1 SS delta) (rs : RecvSt) (ss : SendSt) (hs : InStep rs ss) (b : Array Bool)
+    (b0 b1 seed2 : Label) (E1 E2 moreD : List Bytes) (moreL : List Label)
+    (h1 : Shape (receive R0 R1 rs b).2.2 E1)
+    (h2 : Shape (receive R0 R1 (receive R0 R1 rs b).1 (bcvOf b0 b1)).2.2 E2)
+    (hchi : distinctNZ (X seed2) (b.size + 256) = true)
+    (r r' i : Nat) (hr : r < b.size + 256) (hr' : r' < b.size + 256) (hi : i < 128)
+    (hsel : labelBit delta i = true) (ps : List Pos)
+    (hps : ps = [(r, i)] ∨ (r ≠ r' ∧ ps = [(r, i), (r', i)]))
+    (hE : ∀ q, q < b.size + 256 → errRow b.size E1 E2 q = posRow ps q) :
+    sendKos X SS delta ss b.size
+        (xorMsgs (receive R0 R1 rs b).2.2 E1 ++
+          (xorMsgs (receive R0 R1 (receive R0 R1 rs b).1 (bcvOf b0 b1)).2.2 E2 ++ moreD))
+        ((receiveKos X R0 R1 rs b b0 b1 seed2).resp ++ moreL) = none := by
+  obtain ⟨hnz, hdist⟩ := distinctNZ_spec _ _ hchi
+  rcases hps with e | ⟨hne, e⟩
+  · subst e
+    obtain ⟨ss', sent, _, _, _, hrun⟩ := C15_kos_set_accept_iff X R0 R1 SS delta hb rs ss hs b b0 b1 seed2 E1 E2 moreD
+      h1 h2 [(r, i)] (by intro p hp; simp at hp; subst hp; exact hi) hE
+    rw [hrun moreL]
+    have hsum : posSum (X seed2) delta (b.size + 256) [(r, i)] = mul128 (X seed2 r) (bitLabel i) := by
+      simp only [posSum, List.foldr, hr, hsel, and_self, if_true, zero_pxor]
+    rw [hsum, if_neg (mul128_ne_zero _ _ (hnz r hr) (bitLabel_ne_zero i hi))]
+  · subst e
+    have h := C15_kos_pair_accept_iff X R0 R1 SS delta hb rs ss hs b b0 b1 seed2 E1 E2 moreD moreL h1 h2 r r' i hr hr' hi
+      hsel hE
+    cases hres : sendKos X SS delta ss b.size
+        (xorMsgs (receive R0 R1 rs b).2.2 E1 ++
+          (xorMsgs (receive R0 R1 (receive R0 R1 rs b).1 (bcvOf b0 b1)).2.2 E2 ++ moreD))
+        ((receiveKos X R0 R1 rs b b0 b1 seed2).resp ++ moreL) with
+    | none => rfl
+    | some o =>
+      rw [hres] at h
+      exact absurd (h.mp rfl) (hdist r r' hr hr' hne)
+
+/-- Non-vacuity: a coefficient vector with `distinctNZ` over `2 + 256` rows, and one without. -/
+example : distinctNZ (fun r => BitVec.ofNat 128 (r + 1)) (2 + 256) = true := by decide +kernel
+example : distinctNZ (fun _ => 5#128) 2 = false := by decide
+
+/-- The property's conclusion for alterations of ONE or TWO positions of one
+column (any column, selected or not; any rows of payload and check batch;
+response intact), given that the session's coefficients are non-zero and
+pairwise distinct: the sender never silently accepts an inconsistent state —
+whenever `Send(n, true)` returns, its outputs satisfy the correlation for the
+receiver's original choices.  (PARTIAL with respect to the full statement: three
+and more rows are covered only by `C15_kos_set_accept_iff`, see the header.) -/
+theorem C15_kos_never_silent_two_positions (X : Label → Nat → Label) (R0 R1 SS : Nat → Nat → Byte) (delta : Label)
+    (hb : BaseOK R0 R1 SS delta) (rs : RecvSt) (ss : SendSt) (hs : InStep rs ss) (b : Array Bool)
+    (b0 b1 seed2 : Label) (E1 E2 moreD : List Bytes) (moreL : List Label)
+    (h1 : Shape (receive R0 R1 rs b).2.2 E1)
+    (h2 : Shape (receive R0 R1 (receive R0 R1 rs b).1 (bcvOf b0 b1)).2.2 E2)
+    (hchi : distinctNZ (X seed2) (b.size + 256) = true)
+    (r r' i : Nat) (hr : r < b.size + 256) (hr' : r' < b.size + 256) (hi : i < 128) (ps : List Pos)
+    (hps : ps = [(r, i)] ∨ (r ≠ r' ∧ ps = [(r, i), (r', i)]))
+    (hE : ∀ q, q < b.size + 256 → errRow b.size E1 E2 q = posRow ps q)
+    (out : SendOut)
+    (hacc : sendKos X SS delta ss b.size
+        (xorMsgs (receive R0 R1 rs b).2.2 E1 ++
+          (xorMsgs (receive R0 R1 (receive R0 R1 rs b).1 (bcvOf b0 b1)).2.2 E2 ++ moreD))
+        ((receiveKos X R0 R1 rs b b0 b1 seed2).resp ++ moreL) = some out) :
+    out.labels.length = b.size ∧
+    ∀ k, k < b.size →
+      (receiveKos X R0 R1 rs b b0 b1 seed2).labels.getD k 0#128 =
+        out.labels.getD k 0#128 ^^^ (if b.getD k false then delta else 0#128) := by
+  by_cases hsel : labelBit delta i = true
+  · have := C15_kos_distinct_sound X R0 R1 SS delta hb rs ss hs b b0 b1 seed2 E1 E2 moreD moreL h1 h2 hchi r r' i hr hr' hi
+      hsel ps hps hE
+    rw [this] at hacc
+    cases hacc
+  · have hz : bitLabel i &&& delta = 0#128 := by rw [bitLabel_and _ _ hi, if_neg hsel]
+    have hall : ∀ q, q < b.size + 256 → errRow b.size E1 E2 q &&& delta = 0#128 := by
+      intro q hq
+      rw [hE q hq]
+      rcases hps with e | ⟨_, e⟩ <;> subst e
+      · by_cases a : r = q <;> simp [posRow, a, hz]
+      · by_cases a : r = q <;> by_cases c : r' = q <;> simp [posRow, a, c, hz]
+    obtain ⟨_, ss', sent, hrun, hlen, hcorr⟩ :=
+      C15_kos_unselected_harmless X R0 R1 SS delta hb rs ss hs b b0 b1 seed2 E1 E2 moreD moreL h1 h2 hall
+    rw [hrun] at hacc
+    cases hacc
+    exact ⟨hlen, hcorr⟩
+
+/-- Non-vacuity: the hypotheses are those of `C15_kos_distinct_sound` without the selection of the column. -/
+example : ([(0, 0), (1, 0)] : List Pos) = [(0, 0)] ∨ ((0 : Nat) ≠ 1 ∧ ([(0, 0), (1, 0)] : List Pos) = [(0, 0), (1, 0)]) :=
+  Or.inr ⟨by decide, rfl⟩
+
+/-- Negation witness for the full statement with the response INTACT: for any
+set `S` of rows whose coefficients XOR to zero and any column `i`, flipping
+column `i` at every row of `S` is accepted — whatever `Delta` is — and if
+`Delta` selects the column, every payload row of `S` ends with outputs that
+violate the correlation.  Two rows with equal coefficients are the case
+`S = [r, r']`.  Such a set always exists among any 129 rows (128-bit
+coefficients), and whoever knows `seed2` (the receiver chooses it; it is on the
+wire before the response) finds one by Gaussian elimination; the harness does
+so for every session and replays the alteration on the real sender. -/
+theorem C15_kos_dependent_rows_forgery_witness (X : Label → Nat → Label) (R0 R1 SS : Nat → Nat → Byte) (delta : Label)
+    (hb : BaseOK R0 R1 SS delta) (rs : RecvSt) (ss : SendSt) (hs : InStep rs ss) (b : Array Bool)
+    (b0 b1 seed2 : Label) (E1 E2 moreD : List Bytes) (moreL : List Label)
+    (h1 : Shape (receive R0 R1 rs b).2.2 E1)
+    (h2 : Shape (receive R0 R1 (receive R0 R1 rs b).1 (bcvOf b0 b1)).2.2 E2)
+    (S : List Nat) (i : Nat) (hnd : S.Nodup) (hS : ∀ r, r ∈ S → r < b.size + 256) (hi : i < 128)
+    (hdep : rowXor (X seed2) S = 0#128)
+    (hE : ∀ q, q < b.size + 256 → errRow b.size E1 E2 q = posRow (colAt S i) q) :
+    ∃ out : SendOut,
+      sendKos X SS delta ss b.size
+          (xorMsgs (receive R0 R1 rs b).2.2 E1 ++
+            (xorMsgs (receive R0 R1 (receive R0 R1 rs b).1 (bcvOf b0 b1)).2.2 E2 ++ moreD))
+          ((receiveKos X R0 R1 rs b b0 b1 seed2).resp ++ moreL) = some out ∧
+      (labelBit delta i = true → ∀ r, r ∈ S → r < b.size →
+        (receiveKos X R0 R1 rs b b0 b1 seed2).labels.getD r 0#128 ≠
+          out.labels.getD r 0#128 ^^^ (if b.getD r false then delta else 0#128)) := by
+  obtain ⟨ss', sent, _, _, hcorr, hrun⟩ := C15_kos_set_accept_iff X R0 R1 SS delta hb rs ss hs b b0 b1 seed2 E1 E2 moreD
+    h1 h2 (colAt S i) (by intro p hp; simp only [colAt, List.mem_map] at hp; obtain ⟨_, _, rfl⟩ := hp; exact hi) hE
+  have hz : posSum (X seed2) delta (b.size + 256) (colAt S i) = pzero := by
+    rw [posSum_colAt _ _ _ _ _ hS, hdep, mul128_zero_left]
+    simp
+  refine ⟨{ st := ss', labels := sent, restData := moreD, restLabels := moreL }, ?_, ?_⟩
+  · rw [hrun moreL, if_pos hz]
+  · intro hsel r hr hlt h
+    have := hcorr r hlt
+    rw [h, posRow_colAt_mem _ _ _ hnd hr, bitLabel_and _ _ hi, if_pos hsel] at this
+    exact bitLabel_ne_zero i hi (xor_err_zero _ _ this)
+
+/-- Non-vacuity: two rows with equal coefficients. -/
+example : colAt [0, 1] 0 = [(0, 0), (1, 0)] ∧ [0, 1].Nodup ∧ rowXor (fun _ => 5#128) [0, 1] = 0#128 ∧
+    (∀ r, r ∈ [0, 1] → r < 2 + 256) := by decide
+
+/-- The receiver's checksum `x` (the second label it sends) is the XOR of the
+coefficients of the rows whose choice bit is set — payload choices and the
+random choices `(b0, b1)` of the check batch.  Hence a call whose only set
+choice bit is that of row `r0` sends `x = χ_r0`: the harness recovers every
+coefficient of a session from the REAL receiver by `n + 256` such probe calls
+(same seed), and compares them with the model's. -/
+theorem C15_kos_probe_recovers_chi (X : Label → Nat → Label) (R0 R1 SS : Nat → Nat → Byte) (delta : Label)
+    (hb : BaseOK R0 R1 SS delta) (rs : RecvSt) (ss : SendSt) (hs : InStep rs ss) (b : Array Bool)
+    (b0 b1 seed2 : Label) :
+    (receiveKos X R0 R1 rs b b0 b1 seed2).x =
+      (lsum (b.size + 256) fun r => if choiceAt b b0 b1 r = true then X seed2 r else 0#128) ∧
+    ∀ r0, r0 < b.size + 256 → (∀ r, r < b.size + 256 → choiceAt b b0 b1 r = decide (r = r0)) →
+      (receiveKos X R0 R1 rs b b0 b1 seed2).x = X seed2 r0 :=
+  ⟨receiveKos_x X R0 R1 SS delta hb rs ss hs b b0 b1 seed2,
+   fun r0 hr0 hu => receiveKos_x_unit X R0 R1 SS delta hb rs ss hs b b0 b1 seed2 r0 hr0 hu⟩
+
+/-- Non-vacuity: the choices `[false, true]` with zero check-batch choices have row 1 as their only set bit. -/
+example : ∀ r, r < 2 + 256 → choiceAt #[false, true] 0#128 0#128 r = decide (r = 1) := by
+  intro r hr
+  by_cases h : r < 2
+  · have : r = 0 ∨ r = 1 := by omega
+    rcases this with e | e <;> subst e <;> decide
+  · have hne : r ≠ 1 := by omega
+    simp [choiceAt, h, hne, bcvOf, Array.getD, mk, labelBit]
 
 end Mpc
